@@ -86,6 +86,22 @@ M = {
                             'a blank operand of & becomes "0" again (the repaired defect)'),
     'c17-value-int-only': ('C17', [(CTX, "            text = text.replace(\",\", \".\")\n            return float(text)", "            text = text.replace(\",\", \".\")\n            return float(text) if 'e' not in text.lower() else '#VALUE!'")],
                            'VALUE refuses exponent notation'),
+    'c12-ge-for-gt': ('C12', [(CTX, "            case '>':\n                return left_operand > right_operand", "            case '>':\n                return left_operand >= right_operand")],
+                      '> behaves as >= (comparison operators and criteria share _by_operator)'),
+    'c12-skip-size-check': ('C12', [(CTX, "                if len(sum_range) != len(i):\n                    raise self.ExcelInPythonException('Invalid sumifs range size')", "                if False:\n                    raise self.ExcelInPythonException('Invalid sumifs range size')")],
+                            'SUMIFS does not check that the ranges have one size'),
+    'c12-wildcard-prefix': ('C12', [(CTX, "hit = re.fullmatch(self._wildcard_pattern(value), cell, re.IGNORECASE | re.DOTALL) is not None", "hit = re.match(self._wildcard_pattern(value), cell, re.IGNORECASE | re.DOTALL) is not None")],
+                            'text criteria match a prefix of the cell instead of the whole cell'),
+    'c12-case-sensitive': ('C12', [(CTX, "hit = re.fullmatch(self._wildcard_pattern(value), cell, re.IGNORECASE | re.DOTALL) is not None", "hit = re.fullmatch(self._wildcard_pattern(value), cell, re.DOTALL) is not None")],
+                           'text criteria are case-sensitive'),
+    'c12-eq-prefix-text': ('C12', [(CTX, "found = re.match(r'^(>=|<=|<>|>|<|=)(.*)$', criterion, re.DOTALL)", "found = re.match(r'^(>=|<=|<>|>|<)(.*)$', criterion, re.DOTALL)")],
+                           '"=3" is taken as the plain text =3'),
+    'c12-countifs-falsy': ('C12', [(CTX, "        return len([i for i in range(len(count_range)) if accepted[i] and count_condition(count_range[i])])", "        return len([i for i in range(len(count_range)) if accepted[i] and count_condition(count_range[i]) and count_range[i]])")],
+                           'COUNTIFS drops rows whose cell is 0 (the repaired defect)'),
+    'c12-sumif-target-shift': ('C12', [(SRC + 'excel.py', "return Cell(base.title, base.column + (second.column - first.column), base.row + (second.row - first.row)", "return Cell(base.title, base.column + (second.column - first.column), base.row + (second.row - first.row) - (1 if second.row - first.row > 5 else 0)")],
+                               'the derived SUMIF target range is one row short for criteria ranges taller than 6'),
+    'c12-second-pair-ignored': ('C12', [(CTX, "        for [_range, criteria] in range_and_criteria_zip:\n            for i in range(len(_range)):\n                if not criteria(_range[i]):\n                    sum_range[i] = None", "        for [_range, criteria] in range_and_criteria_zip[:2]:\n            for i in range(len(_range)):\n                if not criteria(_range[i]):\n                    sum_range[i] = None")],
+                                'SUMIFS ignores the third criteria pair'),
 }
 
 
